@@ -48,6 +48,31 @@ func (n noReset) HasNext() bool     { return n.it.HasNext() }
 func (n noReset) Next() (int, bool) { return n.it.Next() }
 func (n noReset) Close() error      { return n.it.Close() }
 
+// vanishTail: an input whose LAST element disappears between HasNext() and Next() — the imparity the Iterator
+// contract spells out (Map iterators do this): after the wrapped iterator is exhausted HasNext() answers true
+// once more and the following Next() returns (zero, false).
+type vanishTail struct {
+	it   iterable.Iterator[int]
+	used bool
+}
+
+func (v *vanishTail) HasNext() bool { return v.it.HasNext() || !v.used }
+func (v *vanishTail) Next() (int, bool) {
+	if v.it.HasNext() {
+		return v.it.Next()
+	}
+	v.used = true
+	return 0, false
+}
+func (v *vanishTail) Close() error { return v.it.Close() }
+
+type vanishTailR struct{ vanishTail }
+
+func (v *vanishTailR) Reset() error {
+	v.used = false
+	return v.it.(interface{ Reset() error }).Reset()
+}
+
 var mixerSel = map[string]iterable.SelectF[int]{
 	"lt":    func(a, b int) bool { return a < b },
 	"le":    func(a, b int) bool { return a <= b },
@@ -77,6 +102,47 @@ func mixerRunCase(ctx *Ctx, sel string, l1, l2 []int, r1, r2 bool, ops []string)
 		ctx.R.Branch("re-initialised mixer")
 	}
 	mx.Init(mixerSel[sel], mk(l1, r1), mk(l2, r2))
+	// shadow run: the same inputs, but their last elements "vanish" (see vanishTail): an input that answers
+	// HasNext() = true and then has nothing must count as exhausted, so every call answers the same
+	mkv := func(l []int, r bool) iterable.Iterator[int] {
+		it := iterable.WrapIntSlice(append([]int{}, l...))
+		if r {
+			return &vanishTailR{vanishTail{it: it}}
+		}
+		return &vanishTail{it: it}
+	}
+	var mv iterable.Mixer[int]
+	switch (len(l1) + len(ops)) % 3 {
+	case 0:
+		mv.Init(mixerSel[sel], mkv(l1, r1), mkv(l2, r2))
+	case 1:
+		mv.Init(mixerSel[sel], mkv(l1, r1), mk(l2, r2))
+	default:
+		mv.Init(mixerSel[sel], mk(l1, r1), mkv(l2, r2))
+	}
+	shadow := func(o string) string {
+		return guard(func() string {
+			switch o {
+			case "hasNext":
+				return fmt.Sprintf("b %v", mv.HasNext())
+			case "next":
+				v, ok := mv.Next()
+				return fmt.Sprintf("nx %d %v", v, ok)
+			case "reset":
+				err := mv.Reset()
+				switch {
+				case err == nil:
+					return "rs ok"
+				case errors.Is(err, gerrors.ErrDataLoss):
+					return "rs dataLoss"
+				case errors.Is(err, gerrors.ErrUnimplemented):
+					return "rs unimplemented"
+				}
+				return "rs other"
+			}
+			return "bad-op"
+		})
+	}
 	ctx.R.Case(sel, fmtInts(l1), fmtInts(l2), r1, r2)
 	// non-trivial: both inputs non-empty with a tie under the selector, or a Reset in mid-stream
 	if len(l1) > 0 && len(l2) > 0 {
@@ -120,6 +186,9 @@ func mixerRunCase(ctx *Ctx, sel string, l1, l2 []int, r1, r2 bool, ops []string)
 			return "bad-op"
 		})
 		ctx.R.Op(o, out)
+		if so := shadow(o); so != out {
+			ctx.R.Quiet("mon C18-vanishing-tail-same", fmt.Sprintf("with inputs whose last element vanishes between HasNext and Next, `%s` answers %s instead of %s", o, so, out))
+		}
 	}
 }
 
